@@ -79,7 +79,7 @@ M = {
     'isinstance-template-unparenthesised-context': ([SNIP], sub(SNIP, "{{indent}}isinstance({{obj}}, {param_name_types})'''", "{{indent}}type({{obj}}) is {param_name_types} or {{obj}}.__class__ is {param_name_types}'''"),
         {'C12': 'C12.R1'}, 'code string no longer matches the isinstance callable'),
     'explain-annotated-first-validator-only': ([E593], sub(E593, "    for hint_validator in hint_validators:", "    for hint_validator in hint_validators[:1]:"),
-        {'C12': 'C12.R4'}, 'explanation path ignores later validators'),
+        {'C12': 'C12.R5'}, 'explanation path ignores later validators'),
     'explain-container-enumerates-non-collections': ([ECON], sub(ECON, "        not isinstance(cause.pith, Collection) or\n", ""),
         {'C10': 'C10.R2'}, 'explanation path measures and iterates a one-shot iterable (the guard added by the F17 fix removed)'),
     'explain-mapping-scans-under-o1': ([EMAP], sub(EMAP, "        pith_items = (pith_item,)", "        pith_items = tuple(cause.pith.items())"),
